@@ -712,6 +712,9 @@ class Interp:
         return {"Lt": lambda: x < y, "LtE": lambda: x <= y, "Gt": lambda: x > y, "GtE": lambda: x >= y}[op]()
 
     def equals(self, a, b):
+        if getattr(a, "__vecop__", False) or getattr(b, "__vecop__", False):
+            va, other = (a, b) if getattr(a, "__vecop__", False) else (b, a)
+            return va._bin(other, lambda x, y: x == y)
         if is_z3(a) or is_z3(b):
             if a is None or b is None:
                 return False
